@@ -1,6 +1,7 @@
 package vc
 
 import (
+	"regexp"
 	"fmt"
 	"math/big"
 	"os"
@@ -223,6 +224,20 @@ func LoadSpecs(repo, mirror string) (*Specs, error) {
 			return nil, err
 		}
 		S.Files = append(S.Files, f)
+	}
+	// a clause that mentions a snapshot (a ghost constant of its own function's body) cannot be stated at call sites:
+	// it is proved in the function and not exported
+	for _, ct := range S.Contracts {
+		for _, sn := range ct.Snapshots {
+			re := regexp.MustCompile(`\b` + regexp.QuoteMeta(sn.Name) + `\b`)
+			for _, g := range [][]*Clause{ct.Ensures, ct.Preserves} {
+				for _, c := range g {
+					if re.MatchString(c.Src) && !hasTag(c, "local") {
+						c.Tags = append(c.Tags, "local")
+					}
+				}
+			}
+		}
 	}
 	return S, nil
 }
